@@ -308,17 +308,17 @@ where
 
 impl<O> DynObj for W<O, KChildrenMore>
 where
-    O: ChildrenMore + 'static,
+    O: RawSlotCall + 'static,
     O::MChild: IntoDyn<KBasic>,
 {
     fn kind(&self) -> &'static str {
         "KChildrenMore"
     }
     fn menu(&self) -> Vec<Meth> {
-        CHILDRENMORE.to_vec()
+        CHILDRENMORE_SINGLE.to_vec()
     }
     fn call(&mut self, mi: usize, a: &mut A) -> Ret {
-        call_childrenmore(&mut Recv::Ref(&*self.o), mi, a)
+        call_childrenmore_single(&mut Recv::Ref(&*self.o), mi, a)
     }
     fn byval_menu(&self) -> Vec<Meth> {
         CHILDRENMORE_BYVAL.to_vec()
